@@ -73,10 +73,13 @@ impl FunctionDeclaration {
 impl Exec for FunctionDeclaration {
     fn exec(&self, interpreter: &mut Interpreter) -> ExecResult {
         let mut local_variables = LocalVariables::from_params(self.params.clone(), interpreter);
-        local_variables.insert(
-            self.ident.clone(),
-            LocalVariable::Function(self.params.clone(), self.return_type.clone()),
-        );
+        // a parameter spelled like the function hides it in the body
+        if !local_variables.contains_key(&self.ident) {
+            local_variables.insert(
+                self.ident.clone(),
+                LocalVariable::Function(self.params.clone(), self.return_type.clone()),
+            );
+        }
         let body = recreate_instructions(&self.body, &mut local_variables)?;
         let function: Arc<Function> = Function {
             ident: Some(self.ident.clone()),
